@@ -31,4 +31,6 @@ c46bcff C29 crash inside DropAll after the memtable WALs were removed and before
 551bbf3 C29 the last level emptied by DropPrefix (or shrunk by compacted deletes, or BaseLevelSize enlarged on re-open) while the level above holds a key, then a delete of that key and an L0 compaction
 890f37e C29 an iterator opened before DropPrefix is still open when the process crashes after the drop returned
 e08cfb2 C26 PrepareIncremental on a database with tables in level 0 and compactors configured
+444f237 C27 NewWriteBatchAt(T) with Set(k) followed by SetEntryAt/DeleteAt(k, T)
+df0ab5d C27 NewManagedWriteBatch with a Set without a version next to a SetEntryAt in the same internal transaction
 L
